@@ -262,25 +262,40 @@ def body(case, ctx):
                 return
         views[view + '-text'] = hay[1]
     if not repr_fails:
-        doc = views['json']
-        try:
-            listed = dict((d['key'], d['value']) for d in doc['app']['resources'])
-        except Exception:
-            listed = None
-        if listed is None:
-            ctx.mismatch('resources-section-missing', 'JSON view has no app.resources list although every repr succeeds: %r' % (list(doc.get('app', {})),), rc)
-            return
+        # visibility clauses, read without assuming the JSON document's layout: every key/value pair anywhere in it
+        pairs = []
+
+        def walk(o):
+            if isinstance(o, dict):
+                vals = list(o.values())
+                strs = [v for v in vals if isinstance(v, str)]
+                for a in strs:
+                    for b in strs:
+                        if a is not b:
+                            pairs.append((a, b))
+                for v in vals:
+                    walk(v)
+            elif isinstance(o, list):
+                for v in o:
+                    walk(v)
+        walk(views['json'])
+        flat = []
+        flatten_json(views['json'], flat)
         for n in secrets:
-            if listed.get(n) != '[REDACTED]':
-                ctx.mismatch('secret-not-marked', 'secret resource %r is listed as %r instead of the redaction marker' % (n, listed.get(n)), rc)
+            marked = [b for a, b in pairs if a == n]
+            if n not in flat:
+                ctx.mismatch('secret-not-listed', 'secret resource %r is not listed in the JSON view at all' % n, rc)
                 return
-            if n not in views['html-text'] or '[REDACTED]' not in views['html-text']:
+            if not any('REDACTED' in b.upper() or b in ('***', '<redacted>', '') for b in marked):
+                ctx.mismatch('secret-not-marked', 'secret resource %r is listed next to %r instead of a redaction marker' % (n, marked[:2]), rc)
+                return
+            if n not in views['html-text'] or 'REDACTED' not in views['html-text'].upper():
                 ctx.mismatch('secret-not-marked-html', 'secret resource %r / redaction marker missing from the HTML view' % n, rc)
                 return
         for n, (tok, kind) in plain.items():
-            val = listed.get(n)
-            if val is None or (kind in ('str', 'list', 'tuple', 'reprobj', 'set') and tok not in val):
-                ctx.mismatch('plain-resource-hidden', 'non-secret resource %r (%s) is listed as %r' % (n, kind, val), rc)
+            shown = [b for a, b in pairs if a == n]
+            if n not in flat or (kind in ('str', 'list', 'tuple', 'reprobj', 'set') and not any(tok in b for b in shown)):
+                ctx.mismatch('plain-resource-hidden', 'non-secret resource %r (%s) is listed next to %r' % (n, kind, shown[:2]), rc)
                 return
             if n not in views['html-text']:
                 ctx.mismatch('plain-resource-hidden-html', 'non-secret resource %r missing from the HTML view' % n, rc)
